@@ -271,7 +271,7 @@ PROPS["C20"] = dict(
     level_text="Proof: the backup file is modelled as an append-only sequence of increments, each holding every key whose version exceeds the previous cursor; restoring all increments in order "
                "reproduces exactly the snapshot at the last backup (restore_eq_snapshot) for every history and every placement of backups, the cursor never moves backwards (cursor_monotone), and "
                "a failed increment leaves the cursor unchanged (failed_backup_keeps_cursor). Facts regenerated from backup.go tie the open mode (append), the error checks, the cursor update "
-               "and the file name to the model. The real backup manager is run at random points and the restored store compared with the model's snapshot.",
+               "and the file name to the model. The real backup manager is run at random points and the restored store compared with the model's snapshot. Commits while a run streams are picked up by the next run (overlapped_then_quiet); a cursor taken from the database instead of the dump loses them (cursor_from_db_loses_overlapped_commit, a counterexample on the model), and the real manager is held open on a pipe while batches commit.",
     level_note="Trusted: Lean kernel, factgen, badger's backup stream.",
 )
 
